@@ -38,11 +38,12 @@ static void check_case(const e3::Entry& e, const std::string& F, const np::Heade
 	std::set<std::string> unknown;
 	for (auto t : subset) unknown.insert(hu.types[t]);
 	// modes 0..3: raw/default save of the model / of a copy; modes 4..9: an explicit call of one of the guarded
-	// operations before the save (4,5 SetShapeOrder(reversed names); 6,7 PrettySortBlocks; 8,9 Optimize; 10,11 DeleteUnreferencedNodes)
-	for (int mode = 11; mode >= 0; mode--) {
+	// operations before the save (4,5 SetShapeOrder(reversed names); 6,7 PrettySortBlocks; 8,9 Optimize; 10,11 DeleteUnreferencedNodes;
+	// 12,13 DeleteUnreferencedBlocks<T> for several block classes T)
+	for (int mode = 13; mode >= 0; mode--) {
 		const int raw = mode & 1;
 		const bool via_copy = mode < 4 && (mode & 2) != 0; // the loaded model is copied and the COPY is saved: it must protect unknown blocks just the same
-		const int pre = mode < 4 ? 0 : mode / 2 - 1;		  // 1 SetShapeOrder, 2 PrettySortBlocks, 3 Optimize, 4 DeleteUnreferencedNodes: nothing may move or go while unknown blocks are present
+		const int pre = mode < 4 ? 0 : mode / 2 - 1;		  // 1 SetShapeOrder, 2 PrettySortBlocks, 3 Optimize, 4 DeleteUnreferencedNodes, 5 typed DeleteUnreferencedBlocks: nothing may move or go while unknown blocks are present
 		const bool reorder = pre != 0;
 		J cj = case_of(e, h, subset, raw == 1).set("via_copy", via_copy).set("reorder", reorder).set("pre", pre);
 		vf::set_inflight(cj.dump());
@@ -75,6 +76,16 @@ static void check_case(const e3::Entry& e, const std::string& F, const np::Heade
 			n.DeleteUnreferencedNodes();
 			st.add("explicit_node_prunes_applied");
 			what += ", after DeleteUnreferencedNodes()";
+		}
+		else if (pre == 5) {
+			n.DeleteUnreferencedBlocks<BSShaderTextureSet>();
+			n.DeleteUnreferencedBlocks<NiGeometryData>();
+			n.DeleteUnreferencedBlocks<NiExtraData>();
+			n.DeleteUnreferencedBlocks<NiSkinData>();
+			n.DeleteUnreferencedBlocks<NiProperty>();
+			n.DeleteUnreferencedBlocks<NiObject>();
+			st.add("explicit_typed_prunes_applied");
+			what += ", after DeleteUnreferencedBlocks<T>() for several T";
 		}
 		NifFile ncopy;
 		if (via_copy) ncopy = n;
